@@ -34,6 +34,7 @@ const (
 	fIdp4xx
 	fIdp5xx
 	fIdpErr
+	fIdp4xxText // a 4xx whose body is not JSON (plain text / HTML error page); the model treats every 4xx alike (FIdp4xx)
 )
 
 type decision struct{ fault int }
